@@ -482,8 +482,12 @@ func (lb *LoadBalancer) AddBackend(backendCfg config.BackendConfig) error {
 		ExpectContinueTimeout: 1 * time.Second,
 
 		// Performance optimizations
-		ForceAttemptHTTP2:  true,  // Use HTTP/2 when available
-		DisableCompression: false, // Let backend handle compression
+		ForceAttemptHTTP2: true, // Use HTTP/2 when available
+		// Let backend and client negotiate compression between themselves: with
+		// compression left enabled the transport adds "Accept-Encoding: gzip" to
+		// requests of clients that sent none and hands the client a decoded body
+		// without the backend's Content-Encoding / Content-Length
+		DisableCompression: true,
 	}
 
 	proxy.Transport = transport
